@@ -174,6 +174,19 @@ func (e *Engine) evalPure2(s *State, fn *ssa.Function, args []Val, bind []Val, p
 	n0, d0 := len(s.pc), len(s.defs)
 	q0 := len(s.qfacts)
 	fins := e.run(sub, 1)
+	// heap arrays first touched while evaluating the specification are versions of the CALLER's heap too: keep them,
+	// or a later touch would materialise a second, unrelated version of the same array
+	for _, f := range fins {
+		for nm, l := range f.hlog {
+			if _, ok := s.heap[nm]; !ok && l != nil {
+				s.heap[nm] = l.Base
+				if s.hlog == nil {
+					s.hlog = map[string]*HLog{}
+				}
+				s.hlog[nm] = &HLog{Base: l.Base}
+			}
+		}
+	}
 	for _, f := range fins {
 		for _, qf := range f.qfacts[q0:] {
 			dup := false
@@ -441,6 +454,13 @@ func (e *Engine) step(s *State) []*State {
 		n := e.toInt(s, e.get(s, f, x.Len).(Term), x.Len.Type())
 		c := e.toInt(s, e.get(s, f, x.Cap).(Term), x.Cap.Type())
 		e.oblig(s, "safe.make", and(ile(intT(0), n), ile(n, c)))
+		if e.curT != nil && s.spec == 0 {
+			if mb := argVal(e.curT.D, "makebound"); mb != "" { // "memory in proportion to the input": a stated ceiling per allocation
+				var lim int64
+				fmt.Sscanf(mb, "%d", &lim)
+				e.oblig(s, "safe.makebound", ile(c, intT(lim)))
+			}
+		}
 		r := e.newRef(s)
 		et := x.Type().Underlying().(*types.Slice).Elem()
 		for _, l := range elemLeaves(et, elemPrefix(et)) {
@@ -864,7 +884,9 @@ func (e *Engine) enter(s *State, f *Frame, from, to *ssa.BasicBlock) {
 			if assumeIt {
 				e.assume(s, v)
 			} else {
-				e.oblig(s, fmt.Sprintf("%s.loop%d.inv[%d].%s", f.fn.Name(), ord, k, tag), v)
+				for _, part := range e.conjuncts(v, 16) { // conjunct by conjunct: small VCs are the stable ones
+					e.oblig(s, fmt.Sprintf("%s.loop%d.inv[%d].%s", f.fn.Name(), ord, k, tag), part)
+				}
 			}
 		}
 	}
@@ -887,6 +909,8 @@ type loopFrame struct {
 	//                   one untyped space; an object of another type never shares arrays with it)
 	cells []string // the local variables named by `modifies=`
 	fn    *ssa.Function
+	any   bool // modifies=*: no frame
+	anyWrites map[string]bool // modifies=*: name prefixes of the heap arrays the body can store to (nil = all)
 }
 
 // heapNamesOf lists the heap-array name prefixes that hold the contents of what v refers to.
@@ -957,6 +981,9 @@ func (e *Engine) loopFrameCheck(s *State, f *Frame, ann *LoopAnn, tag string) {
 		return
 	}
 	lf := s.lframes[len(s.lframes)-1]
+	if lf.any {
+		return
+	}
 	allowed := func(r Term) Term {
 		if r.C != nil && r.C.Sign() == 0 {
 			return boolT(true)
@@ -1069,7 +1096,18 @@ func (e *Engine) havoc(s *State, f *Frame, h *ssa.BasicBlock, ann *LoopAnn) {
 	}
 	// identities of the modifies= objects at loop entry (before anything is forgotten)
 	lf := loopFrame{allocL: s.alloc, fn: f.fn}
-	if ann != nil {
+	if ann != nil && len(ann.Modifies) == 1 && ann.Modifies[0] == "*" {
+		lf.any = true // the loop may write anything it syntactically can: nothing is owed (safety-only contracts)
+		var bl []*ssa.BasicBlock
+		for b := range body {
+			bl = append(bl, b)
+		}
+		w := map[string]bool{}
+		if writtenArrays(bl, 6, map[*ssa.Function]bool{}, w) {
+			lf.anyWrites = w
+		}
+	}
+	if ann != nil && !lf.any {
 		for _, c := range ann.Modifies {
 			if r, v, ok := e.cellRefV(s, f, c); ok {
 				lf.W = append(lf.W, r)
@@ -1122,6 +1160,17 @@ func (e *Engine) havoc(s *State, f *Frame, h *ssa.BasicBlock, ann *LoopAnn) {
 func (e *Engine) havocHeapArr(s *State, nm string, lf loopFrame) {
 	old := s.heap[nm]
 	fresh := e.declare(s, nm, e.heapSorts[nm])
+	if lf.any {
+		if lf.anyWrites != nil && !touchedBy(nm, lf.anyWrites) {
+			s.defs = s.defs[:len(s.defs)-1] // the body cannot store to this array: it keeps its version
+			s.heap[nm] = old
+			return
+		}
+		s.heap[nm] = fresh
+		s.hlog[nm] = &HLog{Base: fresh}
+		e.mapValWT(s, nm, fresh, s.alloc)
+		return
+	}
 	cond := fmt.Sprintf("(select %s r!f)", lf.allocL.S)
 	for i, w := range lf.W {
 		touches := false
@@ -1386,8 +1435,8 @@ func (e *Engine) callFn(s *State, f *Frame, fn *ssa.Function, args []Val, bind [
 		lo, hi, cl := s.res(args[0].(Term)), s.res(args[1].(Term)), args[2].(FuncV)
 		f.env[x] = e.quant(s, name == "vsForall", lo, hi, cl)
 		return true
-	case strings.HasPrefix(fn.String(), "sync.") || strings.HasPrefix(fn.String(), "(*sync."):
-		return true
+	case (strings.HasPrefix(fn.String(), "sync.") || strings.HasPrefix(fn.String(), "(*sync.")) && fn.Signature.Results().Len() == 0:
+		return true // Lock/Unlock/Put/Done/...: no effect on the sequential semantics
 	}
 	if e.opaque[fn.String()] || e.opaqueT[fn.String()] {
 		var parts []Term
